@@ -20,19 +20,30 @@
        tc_annotations_typed are THEOREMS for the agreement teq_rt (identity or bisimilarity of the
        unfoldings, spec/TypEq.v): whatever the typechecker model returns for a closed program is
        typed in the run-time judgement, all 14 forms (proofs/RtTcSound.v, RtTcSoundTop.v, RtTcBisim.v).
-       Premises left, per program: prog_syn_ok p and rt_syn_ok p (two computable conditions on the
-       parsed program — types and names are what the parser and expansion produce — evaluated on
-       every program by the check module) and Topo on the reachable configurations;
-       C01_safety_parsed_partial: for a program that comes out of parse_string, prog_syn_ok is a
-       theorem (proofs/ParseSynOk.v) and only rt_syn_ok is left of the two.
-   NOT proved: the non-polarized mode (`safety_statement` quantifies over the three modes), and the
-   premise topo_runs / topo_reachable (tested by proofs/TopoCheck.v on every suite run). *)
+       Premises left in C01_safety_tc_partial: prog_syn_ok p and raw_ok p (two computable conditions on
+       the AST: types and names are what the parser and expansion produce) and Topo on the reachable
+       configurations.  Both conditions are THEOREMS for parsed programs (C01_parse_raw_ok,
+       proofs/ParseSynOk.v): C01_safety_parsed_partial has no premise but acceptance and Topo.
+       What the run-time judgement needs beyond raw_ok is derived from acceptance (a context entry the
+       body cannot name makes the checker fail; guard providers_not_self, F31).  Programs in which the
+       keyword self is the binder that rebinds the provider (`<x, self> <- recv self; k`) are covered
+       (spec/RtTyping.v: pbinder).
+     * C01_preservation_np / C01_no_error_np / C01_safety_np_parsed_partial /
+       C01_safety_all_modes_parsed_partial : the NON-POLARIZED mode (proofs/RtSafetyNP.v), all forms: the
+       same configuration typing is preserved by every step — the new one is the control message of
+       a forward, whose providers replace the provider entry it was sent to — and excludes every
+       run-time error; no type is read at run time in this mode.  With it the statement aimed at
+       (`safety_statement`: the three modes) holds of every parsed, accepted, closed program with
+       Topo on the reachable configurations as the only premise.
+   NOT proved here: the premise Topo on reachable configurations (topo_runs / topo_reachable; proved
+   for the core fragment in the polarized modes by proofs/TopoReach.v, tested by proofs/TopoCheck.v
+   on every suite run). *)
 From stdpp Require Import gmap strings.
 Require Import Grits.Base Grits.ModeDefs Grits.Modes Grits.STypes Grits.Forms Grits.Subst Grits.TcDeps Grits.Expand
                Grits.Tc Grits.TcTop Grits.Runtime Grits.spec.RtTyping Grits.spec.Topo
                Grits.proofs.StepErrors Grits.proofs.RtSubst Grits.proofs.RtEffect Grits.proofs.RtSafety
                Grits.proofs.RtInit Grits.proofs.RtTheorems Grits.proofs.RtStaticCheck
-               Grits.spec.SynOk Grits.proofs.RtTcSyn Grits.proofs.RtTcBisim Grits.proofs.RtTheoremsTc.
+               Grits.spec.SynOk Grits.proofs.RtTcSyn Grits.proofs.RtTcBisim Grits.proofs.ParseRaw Grits.proofs.RtSafetyNP Grits.proofs.RtTheoremsTc.
 
 Theorem C01_step_error_inv : forall md D F c ch who e,
   step md D F c ch = SError who e <-> step_err md D F c ch who e.
@@ -114,18 +125,18 @@ Theorem C01_teq_rt_laws : forall D, teq_laws D (teq_rt D).
 Proof. exact teq_rt_laws. Qed.
 
 Theorem C01_tc_annotations_typed : forall p p',
-  typecheck p = Accept p' -> prog_syn_ok p = true -> rt_syn_ok p = true -> p_assumed p' = [] ->
+  typecheck p = Accept p' -> prog_syn_ok p = true -> raw_ok p = true -> p_assumed p' = [] ->
   static_typed (teq_rt (p_types p')) p'.
 Proof. exact tc_annotations_typed_rt. Qed.
 
 Theorem C01_initial_typed_tc : forall p p',
-  typecheck p = Accept p' -> in_fragment p' -> prog_syn_ok p = true -> rt_syn_ok p = true ->
+  typecheck p = Accept p' -> in_fragment p' -> prog_syn_ok p = true -> raw_ok p = true ->
   cfg_typed (p_types p') (p_funs p') (teq_rt (p_types p')) (init_delta p') (init_config p').
 Proof. exact initial_typed_tc. Qed.
 
 (* C01 without teq_ok and tc_annotations_typed *)
 Theorem C01_safety_tc_partial : forall p p' md,
-  typecheck p = Accept p' -> in_fragment p' -> prog_syn_ok p = true -> rt_syn_ok p = true ->
+  typecheck p = Accept p' -> in_fragment p' -> prog_syn_ok p = true -> raw_ok p = true ->
   (* topo_runs *)
   (forall md c, is_np md = false -> reachable (p_types p') (p_funs p') md (init_config p') c -> Topo c) ->
   is_np md = false ->
@@ -133,19 +144,52 @@ Theorem C01_safety_tc_partial : forall p p' md,
     exec_run fuel pick md (p_types p') (p_funs p') (init_config p') <> RError c who e.
 Proof. exact safety_tc_partial. Qed.
 
-(* for programs that come out of the parser prog_syn_ok is a theorem (proofs/ParseSynOk.v) *)
+(* for programs that come out of the parser prog_syn_ok and raw_ok are theorems *)
+Theorem C01_parse_raw_ok : forall s p, parse_string s = POk p -> raw_ok p = true.
+Proof. exact parse_raw_ok. Qed.
+
 Theorem C01_safety_parsed_partial : forall txt p p' md,
-  parse_string txt = POk p -> typecheck p = Accept p' -> in_fragment p' -> rt_syn_ok p = true ->
+  parse_string txt = POk p -> typecheck p = Accept p' -> in_fragment p' ->
   (forall md c, is_np md = false -> reachable (p_types p') (p_funs p') md (init_config p') c -> Topo c) ->
   is_np md = false ->
   forall fuel pick c who e,
     exec_run fuel pick md (p_types p') (p_funs p') (init_config p') <> RError c who e.
 Proof. exact safety_parsed_partial. Qed.
 
+(* the non-polarized mode *)
+Theorem C01_preservation_np : forall D F teq, teq_laws D teq -> funs_typed D F teq ->
+  forall Δ c ch c',
+  cfg_typed D F teq Δ c -> closed_unused D NP c -> step NP D F c ch = SStep c' ->
+  exists Δ', Δ ⊆ Δ' /\ cfg_typed D F teq Δ' c'.
+Proof. exact preservation_np. Qed.
+
+Theorem C01_no_error_np : forall D F teq, teq_laws D teq -> funs_typed D F teq ->
+  forall Δ c ch who e,
+  cfg_typed D F teq Δ c -> closed_unused D NP c -> step NP D F c ch <> SError who e.
+Proof. exact no_error_np. Qed.
+
+Theorem C01_topo_closed_unused_np : forall D c, Topo c -> closed_unused D NP c.
+Proof. exact topo_closed_unused_np. Qed.
+
+Theorem C01_safety_np_parsed_partial : forall txt p p',
+  parse_string txt = POk p -> typecheck p = Accept p' -> in_fragment p' ->
+  (forall c, reachable (p_types p') (p_funs p') NP (init_config p') c -> Topo c) ->
+  forall fuel pick c who e,
+    exec_run fuel pick NP (p_types p') (p_funs p') (init_config p') <> RError c who e.
+Proof. exact safety_np_parsed_partial. Qed.
+
+(* the three modes *)
+Theorem C01_safety_all_modes_parsed_partial : forall txt p p' md,
+  parse_string txt = POk p -> typecheck p = Accept p' -> in_fragment p' ->
+  (forall c, reachable (p_types p') (p_funs p') md (init_config p') c -> Topo c) ->
+  forall fuel pick c who e,
+    exec_run fuel pick md (p_types p') (p_funs p') (init_config p') <> RError c who e.
+Proof. exact safety_all_modes_parsed_partial. Qed.
+
 (* the two computable premises as the check module evaluates them on every program of the suite *)
 Theorem C01_syn_premises_sound : forall txt, syn_premises_text txt = SY_ok ->
   exists p p', parse_string txt = POk p /\ typecheck p = Accept p' /\ in_fragment p' /\
-               prog_syn_ok p = true /\ rt_syn_ok p = true /\
+               prog_syn_ok p = true /\ raw_ok p = true /\
                static_typed (teq_rt (p_types p')) p'.
 Proof. exact syn_premises_sound. Qed.
 
@@ -195,7 +239,13 @@ Print Assumptions C01_teq_rt_laws.
 Print Assumptions C01_tc_annotations_typed.
 Print Assumptions C01_initial_typed_tc.
 Print Assumptions C01_safety_tc_partial.
+Print Assumptions C01_parse_raw_ok.
 Print Assumptions C01_safety_parsed_partial.
+Print Assumptions C01_preservation_np.
+Print Assumptions C01_no_error_np.
+Print Assumptions C01_topo_closed_unused_np.
+Print Assumptions C01_safety_np_parsed_partial.
+Print Assumptions C01_safety_all_modes_parsed_partial.
 Print Assumptions C01_syn_premises_sound.
 Print Assumptions C01_examples_syn_ok.
 Print Assumptions C01_static_check_examples.
